@@ -25,6 +25,9 @@ Round 5:
       status when not 200), ` end=<kind>` (the handler that ran behaved so), ` esc=<panic|goexit>` (it left ServeHTTP).
   opt cors                           rest.WithCors(): OPTIONS requests => `204 cors`; the not-allowed handler is cors.NotAllowedHandler
                                      (outcome `na=204404 code=404`)
+  opt corsh | opt ccors              rest.WithCorsHeaders / WithCustomCors (same wiring as WithCors)
+  opt files=<dir>                    rest.WithFileServer(dir, fs) with the files a, b/c, x.txt, api/a: a GET below dir/ that names
+                                     one of them => `file=<name>` (the patRouter is not asked)
   opt router                         rest.WithRouter(router.NewRouter())
   use id=<k>                => ok    Server.Use(middleware u<k>) (trail tokens u<k>, outside the route's own middlewares)
   start                     => listen | panic:<verdict>   Server.Start() on a port that cannot be opened
@@ -259,6 +262,9 @@ def splitExtras (o : String) : String × Option String × Option String × Optio
 def parseCtxVars (s : String) : List (String × String) :=
   if s = "" then [] else (s.splitOn ",").map splitEq
 
+/-- the file names the harness' http.FileSystem accepts (`WithFileServer`). -/
+def fsNames : List String := ["a", "b/c", "x.txt", "api/a"]
+
 def behKinds : List String := ["w201", "w204", "w301", "w404", "w405", "w500", "w503", "perr", "pstr", "pabort", "goexit"]
 
 structure St where
@@ -277,7 +283,7 @@ structure St where
   written : List (List Reg) := []  -- the caller slices as written in the `slice` lines
   rmeta : List (String × List String × Option (String × String) × List Layer) := []  -- bound route ↦ (jwt, chain of bindRoute)
   chain : Option Nat := none     -- rest.WithChain
-  cors : Bool := false           -- rest.WithCors: server.router is a corsRouter
+  wrappers : List Wrapper := []  -- rest.WithCors* / WithFileServer: what server.router is wrapped in (outermost first)
   uses : List Nat := []          -- Server.Use middlewares so far (ids, in Use order)
   rereg : List (String × List String) := []  -- (method, cleaned pattern) re-registered with ANOTHER handler and rejected
 
@@ -551,19 +557,23 @@ def runSection (r : Report) (s : Section) : Report := Id.run do
         match (arg "nf=" [a]).bind parseItem, (arg "na=" [a]).bind parseItem with
         | some h, _ => some (.notFound h)
         | none, some h => some (.notAllowed h)
-        | none, none => if a = "router" then some .router else if a = "cors" then some .cors
-                        else ((arg "chain=" [a]).bind String.toNat?).map .chain
+        | none, none =>
+          if a = "router" then some .router else if a = "cors" then some .cors
+          else if a = "corsh" then some .corsHeaders else if a = "ccors" then some .customCors
+          else if a.startsWith "files=" then some (.fileServer (dropStr 6 a) fsNames)
+          else ((arg "chain=" [a]).bind String.toNat?).map .chain
       match o with
       | some o =>
         if st.built then
           if joinSp l.obs ≠ "late" then r := r.mismatch s.idx l.idx "late" (joinSp l.obs)
         else
           st := { st with opts := st.opts ++ [o], pr := { (newServer (st.opts ++ [o])).router with core := st.pr.core },
-                          chain := (newServer (st.opts ++ [o])).chain, cors := (newServer (st.opts ++ [o])).cors }
+                          chain := (newServer (st.opts ++ [o])).chain, wrappers := (newServer (st.opts ++ [o])).wrappers }
           r := r.addCover (match o with
             | .notFound none => "opt-notfound-nil" | .notFound _ => "opt-notfound-custom"
             | .notAllowed none => "opt-notallowed-nil" | .notAllowed _ => "opt-notallowed-custom"
-            | .router => "opt-WithRouter" | .chain _ => "opt-WithChain" | .cors => "opt-WithCors")
+            | .router => "opt-WithRouter" | .chain _ => "opt-WithChain" | .cors => "opt-WithCors"
+            | .corsHeaders => "opt-WithCorsHeaders" | .customCors => "opt-WithCustomCors" | .fileServer _ _ => "opt-WithFileServer")
           if joinSp l.obs ≠ "ok" then r := r.mismatch s.idx l.idx "ok" (joinSp l.obs)
       | none => r := r.mismatch s.idx l.idx "bad-op" (joinSp l.op)
     | "group" :: args =>
@@ -665,12 +675,19 @@ def runSection (r : Report) (s : Section) : Report := Id.run do
         if kvStr s.cfg "kind" = "server" then st := { st with built := true }
         -- rest.WithCors: the CORS middleware in front of the patRouter answers every OPTIONS request itself (as implemented:
         -- an OPTIONS route is never dispatched then; PropsEntry.cors_preflight_never_dispatches)
-        let srvModel : Server := { router := st.pr, cors := st.cors }
-        if srvModel.serveHTTP m p = .preflight then
-          r := r.addCover "req-cors-preflight-answered-by-the-middleware"
-          if rooted p ∧ !(Spec.candidates st.tbl m (cleanToks p)).isEmpty then r := r.addCover "req-cors-preflight-shadows-a-matching-OPTIONS-route"
-          if (joinSp (l.obs.drop 1)) ≠ "204 cors" then r := r.mismatch s.idx l.idx "204 cors" (joinSp (l.obs.drop 1))
-        else
+        let srvModel : Server := { router := st.pr, wrappers := st.wrappers }
+        let answered : Option String := match srvModel.serveHTTP m p with
+          | .preflight => some "204 cors"
+          | .file f => some ("file=" ++ f)
+          | .router _ => none
+        match answered with
+        | some want =>
+          r := r.addCover (if want = "204 cors" then "req-cors-preflight-answered-by-the-middleware" else "req-file-served-by-the-file-server")
+          if rooted p ∧ !(Spec.candidates st.tbl m (cleanToks p)).isEmpty then
+            r := r.addCover (if want = "204 cors" then "req-cors-preflight-shadows-a-matching-OPTIONS-route" else "req-file-shadows-a-matching-GET-route")
+          if (joinSp (l.obs.drop 1)) ≠ want then r := r.mismatch s.idx l.idx want (joinSp (l.obs.drop 1))
+        | none =>
+        if !st.wrappers.isEmpty then r := r.addCover "req-passed-on-by-the-router-wrappers"
         r := runReq r st s.idx l m p (arg "auth=" args) (kvStr s.cfg "kind" = "server") (arg "ctx=" args) (arg "beh=" args)
         st := { st with served := true }
       | _, _ => r := r.mismatch s.idx l.idx "bad-op" (joinSp l.op)
